@@ -6,6 +6,8 @@ Import ListNotations.
 From K Require Import Proofs.TwoByte.
 From K Require Import Model.Cost Model.Addressing Proofs.MemProofs Proofs.StepProofs Proofs.StepRefines Proofs.StepRefinesCtl Proofs.StepRefines2.
 From K Require Import Proofs.FourByte Proofs.StepRefines4.
+From K Require Import Model.Bus Spec.MemMap Spec.Price Spec.Domains Proofs.PriceProofs Proofs.RegProofs Proofs.ChargeTotals Proofs.RefStep Proofs.FrameRest.
+From Coq Require Import Lia ZifyBool.
 Open Scope Z_scope.
 
 (* [agree t w0 w1 i]: handler family t, run on the opcode words, executes instruction i - same family, same
@@ -114,6 +116,66 @@ Theorem four_byte_decode_operand :
   forall w0 w1 w2 w3 w4 i, decode_ref w0 w1 w2 w3 w4 = Some (i, 4) -> operand_shape w0 w1 i.
 Proof. exact four_byte_operand. Qed.
 
+(* ---- the instruction at PC is executed as exactly the instruction the operation-code map decodes there ----
+   For EVERY well-formed machine state s (32-bit registers, byte-sized CCR and memory cells, no pending fetch fault): if the
+   operation-code map decodes the words at PC as instruction i of length len (ref_decode reads up to five words), the state
+   is inside the domain the correspondence check claims (exec_dom data_ok: instruction in on-chip RAM or DRAM at an even
+   address, operands / stack / vectors in on-chip RAM, DRAM or the vector area, aligned, targets even, no overlap with the
+   instruction's own bytes) and the reference semantics is defined, then the model's [step] - fetch of every word, both
+   dispatch levels, the handler, its charge - ends in exactly the reference's state (plus the operating-PC bookkeeping
+   field) and charges exactly the reference's cycle table priced by the C19 list.
+   [side_ok] only excludes the two recorded known findings: SHAL inside its known class (V flag) and STC.W @-ERd.
+   (The domain excludes a JSR @@aa:8 whose pushed frame covers the vector it reads: the manual leaves the order open.) *)
+Theorem step_executes_the_decoded_instruction :
+  forall s i len s',
+    state_ok s -> ref_decode s = Some (i, len) -> side_ok i s -> dom_c20 i len s = true -> sem_ref i len s = Some s' ->
+    step s = Ok (charge_ref i len s) (set_opc (pc s + len - 2) s').
+Proof. exact step_is_ref_step_proof. Qed.
+
+(* the same, through the reference step function the correspondence check evaluates *)
+Theorem step_is_the_reference_step :
+  forall s i len s',
+    state_ok s -> ref_decode s = Some (i, len) -> side_ok i s -> dom_c20 i len s = true -> ref_step s = Some s' ->
+    step s = Ok (charge_ref i len s) (set_opc (pc s + len - 2) s').
+Proof. exact step_is_ref_step_via_ref_step. Qed.
+
+(* ... and it touches nothing else: the bus-controller and I/O registers, port pins and latches, the timer, the time base, the
+   messages sent, the request queue, exit address, console output and fault flag are those of the state before *)
+Theorem step_touches_only_registers_and_plain_memory :
+  forall s i len s' n s2,
+    state_ok s -> ref_decode s = Some (i, len) -> side_ok i s -> dom_c20 i len s = true -> sem_ref i len s = Some s' ->
+    step s = Ok n s2 -> rest s2 = rest s.
+Proof. exact step_leaves_rest_proof. Qed.
+
+(* the hypotheses are satisfiable: MOV.B R0H,R1H (0C 01) at H'FFC000 in on-chip RAM *)
+Definition c07_ex_state : cpu :=
+  mkCpu 0xffc000 0 0 regs0
+        (mkBus (snew (fun _ => 0)) (snew (fun _ => 0)) (snew (fun _ => 0))
+               (sset (sset (snew (fun _ => 0)) (0xffc000 - RAM_START) 0x0c) (0xffc001 - RAM_START) 0x01)
+               (snew (fun _ => 0)) (snew (fun _ => 0)) (snew (fun _ => 0)) 0 nil timer0)
+        nil 0 0 false false nil false.
+
+Lemma sget_snew0 i : sget (snew (fun _ => 0)) i = 0.
+Proof. Transparent sget. unfold sget, snew. cbn [sov sdflt]. rewrite FMapPositive.PositiveMap.gempty. reflexivity. Opaque sget. Qed.
+
+Example c07_step_example :
+  state_ok c07_ex_state /\ ref_decode c07_ex_state = Some (IMovRR SB 0 1, 2) /\ side_ok (IMovRR SB 0 1) c07_ex_state /\
+  dom_c20 (IMovRR SB 0 1) 2 c07_ex_state = true /\ exists s', sem_ref (IMovRR SB 0 1) 2 c07_ex_state = Some s'.
+Proof.
+  split; [|split; [vm_compute; reflexivity|split; [exact I|split; [vm_compute; reflexivity|eexists; reflexivity]]]].
+  unfold state_ok, cpu_ok. split; [split|split; [|split]].
+  - intros k. unfold word32, c07_ex_state, regs0, get_er. cbn [er r0 r1 r2 r3 r4 r5 r6 r7].
+    repeat match goal with |- context [if ?c then _ else _] => destruct c end; lia.
+  - cbn. lia.
+  - intros a v. unfold bus_read, c07_ex_state. cbn [cbus b_vec b_io1 b_dram b_ram b_io2].
+    unfold inr, VEC_START, VEC_END, IO1_START, IO1_END, DRAM_START, DRAM_END, RAM_START, RAM_END, IO2_START, IO2_END.
+    repeat match goal with |- context [if ?c then _ else _] => destruct c eqn:? end; intros H; inversion H; subst; clear H;
+      rewrite ?sget_sset by lia; rewrite ?sget_snew0;
+      repeat match goal with |- context [if ?c then _ else _] => destruct c end; lia.
+  - intros a Ha. unfold reg, c07_ex_state. cbn [cbus b_io1]. rewrite sget_snew0. lia.
+  - reflexivity.
+Qed.
+
 Print Assumptions first_word_dispatch.
 Print Assumptions unimplemented_rejected.
 Print Assumptions second_word_dispatch_01.
@@ -122,3 +184,6 @@ Print Assumptions two_byte_decode_ignores_later_words.
 Print Assumptions step_stc_byte.
 Print Assumptions step_unimplemented_rejected.
 Print Assumptions four_byte_decode_operand.
+Print Assumptions step_executes_the_decoded_instruction.
+Print Assumptions step_is_the_reference_step.
+Print Assumptions step_touches_only_registers_and_plain_memory.
